@@ -62,6 +62,7 @@ theorem ctlGoal_iff {t : Term} : ctlGoal t = true ↔ Ctl t := by
     | ite c t e hx => subst hx; rfl
     | ifthen c t hx => subst hx; simp [ctlGoal]
     | once x hx => subst hx; rfl
+    | neg x hx => subst hx; rfl
 
 theorem ctl_rename {t : Term} (ρ : Nat → Nat) (h : Ctl t) : Ctl (t.rename ρ) := by
   cases h with
@@ -69,6 +70,7 @@ theorem ctl_rename {t : Term} (ρ : Nat → Nat) (h : Ctl t) : Ctl (t.rename ρ)
   | ite c t e hx => subst hx; exact .ite (c.rename ρ) (t.rename ρ) (e.rename ρ) rfl
   | ifthen c t hx => subst hx; exact .ifthen (c.rename ρ) (t.rename ρ) rfl
   | once x hx => subst hx; exact .once (x.rename ρ) rfl
+  | neg x hx => subst hx; exact .neg (x.rename ρ) rfl
 
 theorem ctl_of_rename {t : Term} (ρ : Nat → Nat) (h : Ctl (t.rename ρ)) : Ctl t := by
   cases h with
@@ -98,6 +100,11 @@ theorem ctl_of_rename {t : Term} (ρ : Nat → Nat) (h : Ctl (t.rename ρ)) : Ct
     obtain ⟨a', bs', rfl, _, hb⟩ := subst_eq_cons has
     rw [subst_eq_nil hb]
     exact .once _ rfl
+  | neg x hx =>
+    obtain ⟨as', rfl, has⟩ := rename_eq_app hx
+    obtain ⟨a', bs', rfl, _, hb⟩ := subst_eq_cons has
+    rw [subst_eq_nil hb]
+    exact .neg _ rfl
 
 theorem ctlGoal_rename (ρ : Nat → Nat) (t : Term) : ctlGoal (t.rename ρ) = ctlGoal t := by
   rw [Bool.eq_iff_iff, ctlGoal_iff, ctlGoal_iff]
